@@ -151,12 +151,13 @@ def staking(tier, seed):
 MC["staking"] = None
 def markets(tier, seed):
     rnd = random.Random("%d/markets" % seed)
-    return (gens_markets.markets(rnd, {"quick": 80, "thorough": 3000}[tier]) + gens_orders.orderbooks(rnd, {"quick": 60, "thorough": 2000}[tier])
+    pool_model = gens_markets.from_pool_model(vlib.tlc_generate_raw("MCPools", "gen/MCPoolsGen.cfg", big=True))
+    return (sample(rnd, pool_model, {"quick": 150, "thorough": 0}[tier]) + gens_markets.markets(rnd, {"quick": 80, "thorough": 3000}[tier]) + gens_orders.orderbooks(rnd, {"quick": 60, "thorough": 2000}[tier])
             + gens_markets.fee_on_route(rnd, {"quick": 40, "thorough": 1000}[tier])
             + regress("markets"))
 
 
-MC["markets"] = None
+MC["markets"] = {"quick": ("MCPools", "mc/MCPools_q.cfg"), "thorough": ("MCPools", "mc/MCPools.cfg")}
 
 
 def statesync(tier, seed):
